@@ -10,7 +10,7 @@ a convolution, SHAPE as a constant, UNPACK as a reshaped split.
 -/
 namespace VelaVerif.Props.C01Rewrites3
 open VelaVerif.Requant VelaVerif.TfliteRef VelaVerif.RewriteSem VelaVerif.RewriteSem2 VelaVerif.RewriteSem3 VelaVerif.Rewrites VelaVerif.Rewrites2
-  VelaVerif.Rewrites3 VelaVerif.Lemmas.Rewrites VelaVerif.Lemmas.Rewrites2 VelaVerif.Lemmas.Sem
+  VelaVerif.Rewrites3 VelaVerif.Lemmas.Rewrites VelaVerif.Lemmas.Rewrites2 VelaVerif.Lemmas.Rewrites3 VelaVerif.Lemmas.Sem
 
 /-! ## 15. RESIZE of a 1x1 input = broadcast ADD with a zero constant -/
 
@@ -27,28 +27,6 @@ theorem resize1x1_nearest_eq (ifm : Nat → Nat → Nat → Int) (numY denY numX
   unfold resizeNearestAt
   rw [resize1x1_nearest_src, resize1x1_nearest_src]
 
-/-- the integer bilinear kernel on four equal neighbours returns that value, whatever the interpolation weights -/
-theorem bilinearInt_const (v dy dx : Int) : bilinearInt v v v v dy dx = v := by
-  unfold bilinearInt
-  have e : v * (1024 - dy) * (1024 - dx) + v * dy * (1024 - dx) + v * (1024 - dy) * dx + v * dy * dx = v * 1048576 := by
-    have h1 : v * (1024 - dy) * (1024 - dx) + v * dy * (1024 - dx) = v * 1024 * (1024 - dx) := by
-      rw [← Int.add_mul, ← Int.mul_add]; congr 2; omega
-    have h2 : v * (1024 - dy) * dx + v * dy * dx = v * 1024 * dx := by
-      rw [← Int.add_mul, ← Int.mul_add]; congr 2; omega
-    rw [h1, Int.add_assoc, h2, ← Int.mul_add, Int.mul_assoc]
-    congr 1
-    have : (1024 - dx + dx) = 1024 := by omega
-    rw [this]; rfl
-  simp only [e]
-  by_cases hv : v * 1048576 > 0
-  · rw [if_pos hv]
-    rw [Int.tdiv_eq_ediv_of_nonneg (by omega)]
-    omega
-  · rw [if_neg hv]
-    have hn : v * 1048576 + -524288 = -((-v) * 1048576 + 524288) := by omega
-    rw [hn, Int.neg_tdiv, Int.tdiv_eq_ediv_of_nonneg (by omega)]
-    omega
-
 /-- **RESIZE_BILINEAR (integer kernel) of a 1x1 input**: every output element is the input element of its channel, for
     every source position and weight the kernel may compute -/
 theorem resize1x1_bilinear_eq (ifm : Nat → Nat → Nat → Int) (y0 y1 x0 x1 : Nat) (dy dx : Int) (c : Nat) :
@@ -57,22 +35,6 @@ theorem resize1x1_bilinear_eq (ifm : Nat → Nat → Nat → Int) (y0 y1 x0 x1 :
   have e : ∀ k : Nat, min k (1 - 1) = 0 := by intro k; omega
   simp only [e]
   exact bilinearInt_const _ _ _
-
-theorem mbqm_zero (m s : Int) : mbqm 0 m s = 0 := by
-  unfold mbqm
-  have hns : ¬ ((0 : Int) * (2 : Int) ^ (if s > 0 then s.toNat else 0) = INT32_MIN ∧ m = INT32_MIN) := by
-    intro h; have := h.1; simp [INT32_MIN] at this
-  simp only []
-  rw [srdhm_floor _ _ hns, rdivpot_cases]
-  simp only [Int.zero_mul]
-  have hp := two_pow_pos (if s > 0 then 0 else (-s).toNat)
-  generalize (2 : Int) ^ (if s > 0 then 0 else (-s).toNat) = P at *
-  have h0 : ((0 : Int) + 1073741824) / 2147483648 = 0 := by decide
-  simp only [h0]
-  have h1 : (0 : Int) / P = 0 := Int.zero_ediv P
-  have h2 : (0 : Int) % P = 0 := Int.zero_emod P
-  simp only [h1, h2]
-  split <;> omega
 
 /-- **The ADD the rewrite creates**: at every output element `(h, w, c)` the reference ADD of the all-zero constant (zero
     point 0, ANY multiplier) and the broadcast 1x1 input is `requantViaAdd` of the input element of that channel — it depends on
@@ -126,22 +88,6 @@ theorem resizeRoute_1x1 (bil half : Bool) (n c oh ow : Nat) (h : ¬ (oh = 1 ∧ 
 
 /-! ## 16. AVERAGE_POOL with a wide stride = convolution with a diagonal all-ones kernel, scale 1/(kh·kw), rounding away from zero -/
 
-theorem sumRange_diag (C oc : Nat) (f : Nat → Int) :
-    sumRange C (fun ic => f ic * (if ic = oc then 1 else 0)) = if oc < C then f oc else 0 := by
-  induction C with
-  | zero => simp [sumRange]
-  | succ k ih =>
-    simp only [sumRange, ih]
-    by_cases h1 : oc < k
-    · have h2 : oc < k + 1 := by omega
-      have h3 : ¬ (k = oc) := by omega
-      rw [if_pos h1, if_pos h2, if_neg h3]; omega
-    · by_cases h4 : k = oc
-      · have h2 : oc < k + 1 := by omega
-        rw [if_neg h1, if_pos h2, if_pos h4, h4]; omega
-      · have h2 : ¬ (oc < k + 1) := by omega
-        rw [if_neg h1, if_neg h2, if_neg h4]; omega
-
 /-- **The accumulator of the created convolution.** For a window inside the IFM (VALID padding, which the supported-operator
     check requires of a width stride above 3), output channel `oc < C`, any input offset (minus the IFM zero point; the
     command generator forces it to 0 for this operator): the convolution with the kernel `w[ky, kx, ic, oc] = [ic = oc]` sums
@@ -187,25 +133,6 @@ theorem avgpool_conv_acc_eq (H W C : Nat) (ifm : Nat → Nat → Nat → Int) (k
              0 ≤ ((ox * sw + kx : Nat) : Int) - ((0 : Nat) : Int) ∧ ((ox * sw + kx : Nat) : Int) - ((0 : Nat) : Int) < (W : Int) := by omega
       exact decide_eq_true c1
     exact foldl_add_const kh kw _ hrow
-
-/-- `(2a + n) / (2n) = (a + n/2) / n` for `a ≥ 0`: rounding to nearest with the exact half and with the kernel's `n / 2` agree -/
-theorem half_up_div (a : Int) (n : Nat) (ha : 0 ≤ a) (hn : 0 < n) :
-    (2 * a + (n : Int)) / (2 * (n : Int)) = (a + ((n / 2 : Nat) : Int)) / (n : Int) := by
-  have hn' : (0 : Int) < (n : Int) := by omega
-  have hq := Int.mul_ediv_add_emod (a + ((n / 2 : Nat) : Int)) (n : Int)
-  have hr0 := Int.emod_nonneg (a + ((n / 2 : Nat) : Int)) (by omega : (n : Int) ≠ 0)
-  have hr1 := Int.emod_lt_of_pos (a + ((n / 2 : Nat) : Int)) hn'
-  generalize (a + ((n / 2 : Nat) : Int)) / (n : Int) = q at *
-  generalize (a + ((n / 2 : Nat) : Int)) % (n : Int) = r at *
-  have h2 : ((n / 2 : Nat) : Int) = (n : Int) / 2 := by omega
-  have key : (2 * a + (n : Int)) / (2 * (n : Int)) = q ∧ (2 * a + (n : Int)) % (2 * (n : Int)) = 2 * r + (n : Int) % 2 := by
-    rw [Int.ediv_emod_unique (by omega : (0 : Int) < 2 * (n : Int))]
-    refine ⟨?_, by omega, by omega⟩
-    have : 2 * (n : Int) * q = 2 * ((n : Int) * q) := by rw [Int.mul_assoc]
-    rw [this]
-    generalize (n : Int) * q = nq at *
-    omega
-  exact key.1
 
 /-- **The rounding.** Rounding `acc / n` to the nearest integer, halves away from zero — the `AwayZero` rounding the rewrite asks
     for, applied to the EXACT scale `1 / n` the rewrite stores — is the reference kernel's average for signed types, for
@@ -280,7 +207,7 @@ theorem avgpool_natural_scale_eq_round_away (acc M : Int) (n sh : Nat) (D : Int)
     have ht1 := Int.emod_lt_of_pos (2 * acc + (n : Int)) (by omega : (0 : Int) < 2 * (n : Int))
     generalize (2 * acc + (n : Int)) / (2 * (n : Int)) = r at *
     generalize (2 * acc + (n : Int)) % (2 * (n : Int)) = t at *
-    obtain ⟨b1, b2⟩ := VelaVerif.Lemmas.Rewrites3.natural_bounds_nonneg acc M n H D r t hn' hH hD hD0 hacc hs1 (by omega) ht0 ht1
+    obtain ⟨b1, b2⟩ := natural_bounds_nonneg acc M n H D r t hn' hH hD hD0 hacc hs1 (by omega) ht0 ht1
     have key : (acc * M + H) / (2 * H) = r ∧ (acc * M + H) % (2 * H) = acc * M + H - 2 * H * r := by
       rw [Int.ediv_emod_unique (by omega : (0 : Int) < 2 * H)]
       refine ⟨by omega, by omega, by omega⟩
@@ -291,7 +218,7 @@ theorem avgpool_natural_scale_eq_round_away (acc M : Int) (n sh : Nat) (D : Int)
     have ht1 := Int.emod_lt_of_pos (2 * (-acc) + (n : Int)) (by omega : (0 : Int) < 2 * (n : Int))
     generalize (2 * (-acc) + (n : Int)) / (2 * (n : Int)) = r at *
     generalize (2 * (-acc) + (n : Int)) % (2 * (n : Int)) = t at *
-    obtain ⟨b1, b2⟩ := VelaVerif.Lemmas.Rewrites3.natural_bounds_neg (-acc) M n H D r t hn' hH hD hD0 (by omega) hs2 (by omega) ht0 ht1
+    obtain ⟨b1, b2⟩ := natural_bounds_neg (-acc) M n H D r t hn' hH hD hD0 (by omega) hs2 (by omega) ht0 ht1
     have ea : - -acc = acc := by omega
     rw [ea] at b1 b2
     have key : (acc * M + H) / (2 * H) = -r ∧ (acc * M + H) % (2 * H) = acc * M + H - 2 * H * (-r) := by
@@ -357,10 +284,6 @@ theorem shape_const_eq_ref (isShape npu : Bool) (idx : Nat) (shape : List Nat) (
 example : convertShapeOp true true 7 [1, 8, 8, 3] 4 [some 3, some 7, none, some 9] = some ⟨[some 3, none, some 9], [1, 8, 8, 3]⟩ := by decide
 
 /-! ## 18. UNPACK = split of the input along the axis, outputs reshaped with a unit dimension -/
-
-theorem prod_insert_one (a b : List Nat) : TfliteRef.prod (a ++ [1] ++ b) = TfliteRef.prod (a ++ b) := by
-  unfold TfliteRef.prod
-  simp [List.foldl_append]
 
 /-- **The reshape moves nothing**: the element of an output at coordinates `pre ++ post` (shape `a ++ b`) sits at the same flat
     index when the output is given the operator shape `a ++ [1] ++ b` and read at `pre ++ [0] ++ post` -/
